@@ -430,10 +430,10 @@ def session_case(ctx, ops, rng, cuts=None):
 
 
 def run(ctx):
-    for i in ctx.cases(1500, 60000):
+    for i in ctx.cases(2000, 80000):
         rng = ctx.case_rng("session", i)
         session_case(ctx, gen_session(rng, rng.choice((rng.randint(1, 10), rng.randint(5, 60), rng.randint(60, 600)))), rng)
-    for i in ctx.cases(9000, 400000):
+    for i in ctx.cases(12000, 500000):
         rng = ctx.case_rng(i)
         r = i % 10
         if r < 4:
